@@ -178,6 +178,7 @@ class DevSystem(object):
         _wire_up(self.device, self.device.localDevice, self.lan, self.DEVICE_MAC)
         self.dest = Address(self.DEVICE_MAC)
         self.transactions = 0
+        self.echoed = None
         for obj in objects:
             self.device.add_object(obj)
 
@@ -209,16 +210,20 @@ class DevSystem(object):
         return None
 
     # ---- services
-    def read(self, objid, prop, index=None):
+    def read(self, objid, prop, index=None, answers=None):
+        """`answers`: object identifiers the acknowledgement may carry (default: only the one asked for; the
+        reference gives two for the wildcard Device instance).  The one it carried is kept in `self.echoed`."""
         req = ReadPropertyRequest(objectIdentifier=objid, propertyIdentifier=prop)
         if index is not None:
             req.propertyArrayIndex = index
         resp = self._transact(req)
+        self.echoed = None
         if isinstance(resp, ReadPropertyACK):
             echo = (objid_key(resp.objectIdentifier), prop_key(resp.propertyIdentifier), resp.propertyArrayIndex)
             want = (objid_key(objid), prop_key(prop), index)
-            if echo != want:
+            if echo[1:] != want[1:] or echo[0] not in (answers if answers is not None else (want[0],)):
                 return ("ack-for-something-else", echo)
+            self.echoed = echo[0]
             return ("ack", any_octets(resp.propertyValue))
         return classify(resp)
 
